@@ -25,6 +25,7 @@ type op struct {
 	write bool
 	v     float64
 	ex    bool // ObserveWithExemplar (same shared operations as Observe; the exemplar store is an independent atomic.Value)
+	exk   int  // exemplar labels: 0 valid, 1 nil (documented: works like Observe), 2 invalid (documented panic AFTER the observation is counted)
 }
 
 type callRec struct {
@@ -77,7 +78,17 @@ func recheckKept() {
 func doOp(t target, o op) string {
 	if !o.write {
 		if eo, ok := t.(prometheus.ExemplarObserver); ok && o.ex {
-			eo.ObserveWithExemplar(o.v, prometheus.Labels{"id": "x"})
+			switch o.exk {
+			case 1:
+				eo.ObserveWithExemplar(o.v, nil)
+			case 2:
+				func() { // the caller recovers the documented panic (as net/http does): the observation stays counted
+					defer func() { recover() }()
+					eo.ObserveWithExemplar(o.v, prometheus.Labels{"__reserved": "x"})
+				}()
+			default:
+				eo.ObserveWithExemplar(o.v, prometheus.Labels{"id": "x"})
+			}
 		} else {
 			t.Observe(o.v)
 		}
@@ -136,7 +147,7 @@ func genProgs(r *emit.Rng, nthreads, maxOps int) [][]op {
 			if r.Chance(2, 5) {
 				progs[t] = append(progs[t], op{write: true})
 			} else {
-				progs[t] = append(progs[t], op{v: math.Ldexp(1, next), ex: r.Chance(1, 3)}) // distinct powers of two identify the observation
+				progs[t] = append(progs[t], op{v: math.Ldexp(1, next), ex: r.Chance(1, 3), exk: []int{0, 0, 1, 2}[r.Intn(4)]}) // distinct powers of two identify the observation
 				next++
 			}
 		}
